@@ -273,7 +273,11 @@ fn unescape_sparql_iri(value: &str) -> String {
             let digits = if escaped == 'u' { 4 } else { 8 };
             let hexadecimal = &escape[escaped.len_utf8()..];
             if hexadecimal.len() >= digits {
-                if let Ok(codepoint) = u32::from_str_radix(&hexadecimal[..digits], 16) {
+                // `get`: the digits may be followed by a multi-byte character
+                if let Some(Ok(codepoint)) = hexadecimal
+                    .get(..digits)
+                    .map(|hex| u32::from_str_radix(hex, 16))
+                {
                     if let Some(decoded) = char::from_u32(codepoint) {
                         result.push(decoded);
                         index += 1 + escaped.len_utf8() + digits;
@@ -334,7 +338,11 @@ fn literal_lexical_value(literal: &str) -> String {
                         let digits = if escaped == 'u' { 4 } else { 8 };
                         let hexadecimal = &escape[escaped.len_utf8()..];
                         if hexadecimal.len() >= digits {
-                            if let Ok(codepoint) = u32::from_str_radix(&hexadecimal[..digits], 16) {
+                            // `get`: the digits may be followed by a multi-byte character
+                            if let Some(Ok(codepoint)) = hexadecimal
+                                .get(..digits)
+                                .map(|hex| u32::from_str_radix(hex, 16))
+                            {
                                 if let Some(decoded) = char::from_u32(codepoint) {
                                     value.push(decoded);
                                     index += 1 + escaped.len_utf8() + digits;
